@@ -525,7 +525,8 @@ PROPS["C11"] = dict(
          "(jitter: up to 16), 3-7 generations with random work in between; enter/leave/action tickets checked per "
          "generation, the action's thread against the last arriver from the shim's operation log (serial). "
          "mode=serial: controlled schedules (uniform random, sticky random, PCT-style priorities with 1-3 change "
-         "points); distinct schedules are counted by the hash of their decisions. mode=jitter: real threads with "
+         "points; a third of the scenarios with injected spurious condition-variable wake-ups); distinct schedules are "
+         "counted by the hash of their decisions. mode=jitter: real threads with "
          "seeded yields/sleeps under TSan and ASan. Classes: scenario type x shape.",
     require=dict(any=["sem_histories", "barrier_histories", "sem_rest_states_inspected", "sem_waits_that_blocked",
                       "sem_ops_replayed", "barrier_generations", "schedule_steps"]),
@@ -558,7 +559,8 @@ PROPS["C10"] = dict(
          "job. Checked from the recorded tickets: no job twice, every job enqueued before "
          "a loop_until_empty() call done at its return, the waiter's interval not covered by pending jobs, done() and "
          "plain writes after a quiet return, no job running when loop_until_terminate()/~ThreadPool return; dsched "
-         "reports deadlocks. mode=serial: seeded controlled schedules (random, sticky, PCT-style); mode=jitter: real "
+         "reports deadlocks. mode=serial: seeded controlled schedules (random, sticky, PCT-style; a third of the scenarios "
+         "with injected spurious wake-ups); mode=jitter: real "
          "threads with seeded delays under TSan/ASan. Classes: scenario shape.",
     require=dict(any=["pool_scenarios", "jobs_executed", "terminate_scenarios", "rendezvous_scenarios",
                       "waits_that_blocked", "schedule_steps"]),
